@@ -44,3 +44,70 @@ Definition exit_reply_counts (b : bargs) (remote : ipb) (extra : list rr) : list
   | Some _ => reply_ecs_counts (negb (has_opt extra)) false []
   | None => badvers_reply_counts b remote extra
   end.
+
+(* ------------------------------------------------------------------ the exit in RESOLVER mode *)
+(* middleware/resolver: the request the handlers in front of it hand over — the one the edns layer has
+   rewritten — is the lookup's leader request.  Every attempt (root, TLD, authoritative server; the
+   minimised question of Resolver.minimize is a Copy of it with another name; the TCP retry after a
+   truncated answer) sends acquireAttemptReq(leader): header and sections of the leader, the OPT as a
+   private shell with the leader's options.  Questions the resolver asks on its own account — the
+   address of a nameserver delegated without glue (lookupNSAddrV4: a fresh message, SetEdns0(size, DO))
+   — go through the Queryer: a run of the whole pipeline as the internal client 127.0.0.255, whose
+   edns layer rewrites that fresh message like any other, and whose resolver walks a second line from
+   the root.
+
+   The scripted name space of the correspondence: a delegation chain of [length hops] servers for the
+   client's name (hop code 0: answers; any other code: answers truncated over UDP first, then over
+   TCP); with [glueless] the delegation to the LAST server of the chain names a nameserver outside the
+   zone without an address, which the resolver looks up through a chain of three servers before it
+   asks that last server. *)
+
+(* one query on the wire: on the client's own line (its question, minimised or not)?  which server of
+   the chain, transport, additional section *)
+Record res_query := mk_rq { rq_own : bool; rq_server : N; rq_tcp : bool; rq_extra : list rr }.
+
+Definition hop_sends (own : bool) (extra : list rr) (i h : N) : list res_query :=
+  mk_rq own i false extra :: (if h =? 0 then [] else [mk_rq own i true extra]).
+
+Fixpoint line_sends (own : bool) (extra : list rr) (i : N) (hops : list N) : list res_query :=
+  match hops with
+  | [] => []
+  | h :: r => hop_sends own extra i h ++ line_sends own extra (i + 1) r
+  end.
+
+Fixpoint resolver_line (out sub : list rr) (glueless : bool) (i : N) (hops : list N) : list res_query :=
+  match hops with
+  | [] => []
+  | h :: r =>
+      match r with
+      | [] => (if glueless then line_sends false sub 0 [0; 0; 0] else []) ++ hop_sends true out i h
+      | _ => hop_sends true out i h ++ resolver_line out sub glueless (i + 1) r
+      end
+  end.
+
+(* the transport address the Queryer's writer reports (bufferRemoteAddr; srcgen re-reads it:
+   Proofs_arith.gen_internal_client) *)
+Definition internal_remote : ipb := mk_ipb 4 2130706687.
+
+(* what a question of the resolver's own carries once the sub-pipeline's edns layer has rewritten the
+   fresh message (one OPT, no options) *)
+Definition sub_query_extra (b : bargs) : list rr :=
+  match snd (edns_serve b internal_remote [ROpt (mk_optrr 0 [])]) with
+  | Some out => out
+  | None => []
+  end.
+
+(* the client's name may be an alias (CNAME) whose target lives in another zone: the cache layer chases
+   it (Cache.additionalAnswer: a fresh message, SetEdns0(size, DO)) through the Queryer — one more
+   question of the process's own, walked from the root, or from the target zone's server when the
+   glue-less look-up has already taught the resolver that delegation *)
+Definition chase_line (sub : list rr) (glueless alias : bool) : list res_query :=
+  if alias then (if glueless then line_sends false sub 2 [0] else line_sends false sub 0 [0; 0; 0]) else [].
+
+(* a client query through [edns, cache, resolver] on a cold cache: everything that goes onto the wire *)
+Definition exit_resolver (b : bargs) (remote : ipb) (extra : list rr) (glueless alias : bool) (hops : list N)
+  : list res_query :=
+  match snd (edns_serve b remote extra) with
+  | Some out => resolver_line out (sub_query_extra b) glueless 0 hops ++ chase_line (sub_query_extra b) glueless alias
+  | None => []                      (* BADVERS is answered by the edns layer: nothing leaves *)
+  end.
